@@ -203,6 +203,45 @@ fn main() {
             }
         });
         let imp = match r { Ok(s) => s, Err(p) => p };
+        // ---- the convenience entry points are the ring with one kind of secret (first match wins): decrypt_with_keys / decrypt,
+        //      decrypt_with_password, decrypt_with_session_key must end the way the ring with just those secrets ends
+        if case % 2 == 0 || forced.is_some() {
+            let outcome = |r: pgp::errors::Result<Message>| -> String { match r {
+                Ok(mut dm) => { let mut o = Vec::new(); match dm.read_to_end(&mut o) { Ok(_) if o == plain => "F0".into(), Ok(_) => "WRONG-PLAINTEXT".into(), Err(_) => "Fx".into() } }
+                Err(pgp::errors::Error::MissingKey) => "M".into(), Err(_) => "Fx".into() } };
+            let kp: Vec<Password> = std::iter::once(Password::empty()).chain(key_pw_strs.iter().map(|s| Password::from(*s))).collect();
+            let mut pairs: Vec<(String, String, String)> = Vec::new();
+            if !present_keys.is_empty() {
+                let keys: Vec<&SignedSecretKey> = present_keys.iter().map(|i| &pool[*i].sk).collect();
+                let a = guarded(|| outcome(Message::from_bytes(&msg[..]).and_then(|m| m.decrypt_with_keys(kp.iter().collect(), keys.clone())))).unwrap_or_else(|p| p);
+                let b = guarded(|| outcome(Message::from_bytes(&msg[..]).and_then(|m| m.decrypt_the_ring(TheRing { secret_keys: keys.clone(), key_passwords: kp.iter().collect(), message_password: vec![], session_keys: vec![], decrypt_options: DecryptionOptions::new() }, true).map(|x| x.0)))).unwrap_or_else(|p| p);
+                pairs.push(("decrypt_with_keys".into(), a, b));
+                let k0 = keys[0];
+                for pw in kp.iter().take(2) {
+                    let a = guarded(|| outcome(Message::from_bytes(&msg[..]).and_then(|m| m.decrypt(pw, k0)))).unwrap_or_else(|p| p);
+                    let b = guarded(|| outcome(Message::from_bytes(&msg[..]).and_then(|m| m.decrypt_the_ring(TheRing { secret_keys: vec![k0], key_passwords: vec![pw], message_password: vec![], session_keys: vec![], decrypt_options: DecryptionOptions::new() }, true).map(|x| x.0)))).unwrap_or_else(|p| p);
+                    pairs.push(("decrypt".into(), a, b));
+                }
+            }
+            for p in present_pws.iter().take(2) {
+                let pw = Password::from(pws[*p]);
+                let a = guarded(|| outcome(Message::from_bytes(&msg[..]).and_then(|m| m.decrypt_with_password(&pw)))).unwrap_or_else(|p| p);
+                let b = guarded(|| outcome(Message::from_bytes(&msg[..]).and_then(|m| m.decrypt_the_ring(TheRing { secret_keys: vec![], key_passwords: vec![], message_password: vec![&pw], session_keys: vec![], decrypt_options: DecryptionOptions::new() }, true).map(|x| x.0)))).unwrap_or_else(|p| p);
+                pairs.push(("decrypt_with_password".into(), a, b));
+            }
+            for k in explicit.iter().take(2) {
+                let mk = || if c.v2 { PlainSessionKey::V6 { key: keyof(*k) } } else { PlainSessionKey::V3_4 { sym_alg: c.sym, key: keyof(*k) } };
+                let a = guarded(|| outcome(Message::from_bytes(&msg[..]).and_then(|m| m.decrypt_with_session_key(mk())))).unwrap_or_else(|p| p);
+                let b = guarded(|| outcome(Message::from_bytes(&msg[..]).and_then(|m| m.decrypt_the_ring(TheRing { secret_keys: vec![], key_passwords: vec![], message_password: vec![], session_keys: vec![mk()], decrypt_options: DecryptionOptions::new() }, true).map(|x| x.0)))).unwrap_or_else(|p| p);
+                // a session key in hand opens the container exactly when it is the container's key
+                let direct = if *k == 0 { "F0" } else { "Fx" };
+                pairs.push(("decrypt_with_session_key".into(), a.clone(), b));
+                pairs.push(("decrypt_with_session_key-direct".into(), a, direct.into()));
+            }
+            for (what, a, b) in pairs {
+                cx.out.case("", &[], &["convenience".into(), case.to_string(), what.clone(), hx(&msg[..msg.len().min(2500)])], &format!("{what}={a} ring={b}"), Some(a == b && a != "WRONG-PLAINTEXT" && !a.starts_with("PANIC")), &format!("convenience-{}", what));
+            }
+        }
         let said_conflict = imp == "Fx conflict";
         let imp = if said_conflict { "Fx".to_string() } else { imp };
         // ---- the oracle table for the model
